@@ -111,6 +111,15 @@ NOTES = {
     "C16-m12": "missed by the first version of the check (the diff file was always called d.jd); caught after the name of the diff file varies with the case (d.jd, d.json, d, d.txt, d.yaml, d.yml)",
     "C08-m7": "the delivered patch no longer applied after repair D39 touched the same lines; re-made by hand on the current tree. Caught",
     "C08-m9": "the delivered patch no longer applied after repair D39; re-made by hand on the current tree. Caught",
+    "C04-m14": "missed by the first version of the check (SetKeys documents always had unique key tuples, which Equals does not need); caught after look-alike members (same key values, different content) were added to the random leg of C04",
+    "C05-m14": "missed by the first version of the check; caught after setkeys:id,k was added to the C05 option sets. The D21 predicate is applied there in its narrow form (two members of one array with permuted key tuples), so that a pair whose tuples are permuted between a and b, as this change needs, is judged",
+    "C06-m13": "missed by the first version of the check; caught after containers changed two or three levels down with edited neighbours were added",
+    "C13-m13": "missed by the first version of the check; caught after metadata lines with known member names and wrong value kinds (^ {\"Version\":\"2\"}, ^ {\"Merge\":null}, ^ {\"setkeys\":\"id\"} ...) were added to the hostile constants and to the C02 line pool",
+    "C13-m14": "missed by the first version of the check; caught after the translate mode of the cli leg also feeds well-formed structured diffs (set paths, keyed paths, long context) to -t jd2patch / jd2merge and got more weight",
+    "C17-m11": "missed by the first version of the check (it had looked caught only because of D39v1); caught after MERGE together with SetPrecision was added to the v1 option sets",
+    "C17-m12": "the delivered patch no longer applied after repair D39v1; re-made by hand on the current tree. Caught",
+    "C17-m13": "missed by the first version of the check; caught after the C17 cli leg writes the diff and the patched document with -o over an existing longer file",
+    "C18-m13": "missed by the first version of the check; caught after integer-looking key twins (1 next to 01, +1, 1e0; 0 next to -0, 00; also negative) were added to C18",
     "C14-m2": "missed by the first version of the check (stdin was always a pipe); caught after a run with stdin redirected from a regular file was added",
 }
 
